@@ -5,7 +5,7 @@ w = World()
 targets = [a for a in sys.argv[1:] if not a.startswith("-")]
 for t in targets:
     con = w.reg.contracts[t]
-    for variant in (con.variants or [None]):
+    for variant in con.all_variants():
         r = verify_function(w, con, variant)
         print(f'== {t} [{variant}] paths={r.paths} (normal {r.normal_paths}, exc {r.exc_paths}) obligations={len(r.obligations)} '
               f'time={r.seconds:.2f}s solver={r.solver_seconds:.2f}s queries={r.queries} vac={r.vacuity}')
